@@ -22,10 +22,15 @@ TARGET = {"cdisc": ["CClientDisconnect"], "sdisc0": ["CServerDisconnect0"], "sdi
 OTHER = {"cdisc": ["CInvalidState"], "sdisc0": [], "sdisc1": ["CServerDisconnect1", "CInvalidState"], "srvclose": ["CParseError"]}
 
 
-def model_causes(fired, target):
+def model_causes(fired, target, both=False):
+    """both: two sockets of ONE namespace on one connection (duplicate CONNECT): a namespace-level cause
+    hits whichever of them the connection's by-namespace index holds, so either role is possible"""
     out = []
     for f in fired:
-        for c in COMMON.get(f, (TARGET if target else OTHER).get(f, [])):
+        cands = COMMON.get(f)
+        if cands is None:
+            cands = (TARGET.get(f, []) + OTHER.get(f, [])) if both else (TARGET if target else OTHER).get(f, [])
+        for c in cands:
             if c not in out:
                 out.append(c)
     return out
@@ -58,7 +63,7 @@ def cases_of(row):
                    discing_h=s["discing_h"], disc_h=s["disc_h"], order_ok=s["order_ok"],
                    in_nsp=s["in_nsp"] or s["in_fetch"], rooms=s["in_adapter"] or bool(s["rooms"]),
                    conn_flag=s["conn_flag"])
-        res.append((s, phase_of(row, s), model_causes(row["fired"], s["nsp"] == "/"), obs))
+        res.append((s, phase_of(row, s), model_causes(row["fired"], s["nsp"] == "/", both=row["phase"] == "dupconnect"), obs))
     return [(s, ph, cs, obs, sid_known) for (s, ph, cs, obs) in res]
 
 
